@@ -81,4 +81,15 @@ PROPS["C06"] = dict(jobs=None, obl=None, bounded="c06", level="other", design="4
 PROPS["C08"] = dict(jobs=ANY, obl=lambda o: any(x in o["name"] for x in ("recorded ancestors", "_parent recorded")), bounded="c08", level="other", design="4 C08",
                     technique="P: every operator / helper contract pins the parents recorded on its result and the recorded-ancestor set (what the dependency edges are built from); B: graph consistency (both ends, held values only, acyclic) as built / after edits / after simulations and toggles; completeness by perturbing every quantity input and rebuilding; update order of every input")
 
+PROPS["C11"] = dict(jobs=None, obl=None, bounded="c11", level="other", design="4 C11",
+                    technique="bounded stand-in: convert_to_utc on series straddling the offset transitions of IANA zones vs an oracle computed from the pytz transition tables (total, strictly increasing unique index, placement at local time minus offset in force, skipped/repeated hours merged next to the transition)")
+PROPS["C20"] = dict(jobs=None, obl=None, bounded="c20", level="other", design="4 C20",
+                    technique="bounded stand-in: every hourly-series helper vs an oracle written with datetime arithmetic only (index, unit, values; calendar rules incl. leap years, year ends, non-midnight starts, partial days)")
+
+PROPS["C13"] = dict(jobs=None, obl=None, bounded="c13", level="other", design="4 C13",
+                    technique="bounded stand-in: whole-system JSON round trips (through text) of core topologies, edit histories and a system with every builder class: ids, classes, links, labels, sources, inputs, recomputed results, re-export equality, liveness, previous-major-version file")
+
+PROPS["C17"] = dict(jobs=None, obl=None, bounded="c17", level="other", design="4 C17",
+                    technique="bounded stand-in: builder systems over every resolution / technology / model-parameter kind / sampled instance types: derived parameters vs the stated rules recomputed independently, footprints vs the plain twin model, refresh after every builder-input change vs a fresh build")
+
 NOT_BUILT = {}
